@@ -22,8 +22,8 @@ theorem K.of_armok {x y : FCfg} (h : K a0 x) (hl : y.l = x.l) (ha : ArmOk a0 y) 
 /-- a pause / play hook fired: nothing `K` cares about changed -/
 theorem K.fire {x y : FCfg} (h : K a0 x) (hl : y.l = x.l) (ha : y.arm = none) (hnm : mainHK a0.hk = false) : K a0 y := by
   refine ⟨ArmOk.of_none ha, by rw [hl]; exact h.tr, ?_⟩
-  rcases h.g with ⟨hm, _⟩ | ⟨hi, _⟩
-  · rw [hnm] at hm; cases hm
+  rcases h.g with hb | ⟨hi, _⟩
+  · have := hb.main; rw [hnm] at this; cases this
   · exact Or.inr ⟨by rw [hl]; exact hi, fun hm => by rw [hnm] at hm; cases hm⟩
 
 theorem Fr.setC' (x : FCfg) (c : Cfg) (hs : Same2 x.l.c c) (hst : c.st = x.l.c.st) : Fr x (x.setC c) :=
